@@ -6,7 +6,7 @@ from .common import emit_struct, emit_method, emit_free_fn, emit_error_enum, imp
 from .u6_root import prelude_types
 
 NAME = 'u21_entry'
-PROPS = ['C12', 'C18', 'C05']
+PROPS = ['C12', 'C18', 'C02', 'C05']
 D = 'src/decoder.rs'
 DT = 'src/detector.rs'
 
@@ -62,6 +62,17 @@ def build(u):
     u.count('R-attr')
     u.emit_text('jsontypes::MinimalRawSourceMap', text, origin)
     u.spec('detect_rule.rs')
+    u.raw('payload stubs', '''//@@ prelude entry_payload_stubs
+//# assumes: SourceMap / SourceMapIndex / SourceMapHermes are opaque payloads of the real DecodedMap enum here
+#[verifier::external_body]
+pub struct SourceMap { _x: u8 }
+#[verifier::external_body]
+pub struct SourceMapIndex { _x: u8 }
+#[verifier::external_body]
+pub struct SourceMapHermes { _x: u8 }
+//@@ endprelude
+''')
+    emit_struct(u, 'src/types.rs', 'DecodedMap', kind='enum')
     u.prelude('shim_entry.rs')
     u.spec('entry.rs')
     for c in ['DATA_PREAMBLE', 'DATA_PREAMBLE_CHARSET']:
@@ -92,3 +103,11 @@ def build(u):
     emit_free_fn(u, DT, 'is_sourcemap_slice_impl', 'detector::is_sourcemap_slice_impl', prep=lambda f: json_slice_shim(f, u, 'MinimalRawSourceMap', 'verif_json_from_slice_min'))
     emit_free_fn(u, DT, 'is_sourcemap', 'detector::is_sourcemap')
     emit_free_fn(u, DT, 'is_sourcemap_slice', 'detector::is_sourcemap_slice')
+
+    # the typed constructors: a match on the decoded kind
+    T = 'src/types.rs'
+    H = 'src/hermes.rs'
+    for ty, rel, impl in [('SourceMap', T, r'SourceMap\b'), ('SourceMapIndex', T, r'SourceMapIndex\b'), ('SourceMapHermes', H, r'SourceMapHermes\b')]:
+        for g in ['from_reader', 'from_slice']:
+            emit_method(u, rel, impl, g, '%s::%s::%s' % (rel.split('/')[-1][:-3], ty, g))
+    emit_method(u, T, r'DecodedMap\b', 'from_reader', 'types::DecodedMap::from_reader')
